@@ -351,7 +351,7 @@ func (vs *ValidatorStore) fetchPostponedUnstakes() error {
 		if err != nil {
 			return false
 		}
-		err = vs.HandleUnstake(*unstake, vs.lastHeight)
+		err = vs.reduceStake(*unstake, vs.lastHeight, false)
 		if err != nil {
 			logger.Errorf("Handle unstake for validator: %s failed, %s\n", validator.Address, err)
 			return false
